@@ -77,7 +77,7 @@ def r1(db, rep):
                    "such a mutation also assigns PropertyMap.shape (shape identity is the cache's validity token)")
     nm = 0
     for f in db.fns.values():
-        if not f.id.startswith("boa_engine::"):
+        if not f.id.startswith("boa_engine::") or not f.mentions("PropertyMap"):
             continue
         name = cname(f.id).split("::{closure")[0]
         muts = []
@@ -127,7 +127,7 @@ def r2(db, rep):
     rep.rule("R2", "every InlineCache::set is dominated by the true edge of Slot::is_cacheable on the slot it stores")
     n = 0
     for f in db.fns.values():
-        if not f.id.startswith("boa_engine::"):
+        if not f.id.startswith("boa_engine::") or not f.mentions("InlineCache"):
             continue
         name = cname(f.id)
         k = -1
@@ -160,6 +160,8 @@ def r3(db, rep):
     n = 0
     for f in db.fns.values():
         if not f.id.startswith("boa_engine::object::internal_methods") and not f.id.startswith("boa_engine::builtins"):
+            continue
+        if not f.mentions("bitor_assign"):
             continue
         name = cname(f.id)
         k = -1
@@ -253,6 +255,8 @@ def r4(db, rep):
     n = 0
     for f in db.fns.values():
         if not f.id.startswith("boa_engine::vm::opcode"):
+            continue
+        if not f.mentions("InlineCache"):
             continue
         name = cname(f.id)
         gets = [(b, t) for b, t in f.calls() if cn(t) == "InlineCache::get"]
